@@ -1,4 +1,5 @@
 import QbVerif.Model.Admission
+import QbVerif.Model.AdmissionPlant
 import QbVerif.Driver.Util
 
 /-! Driver `admission` (C05), same lines as harness/ipc/ipc_adm.c:
@@ -8,7 +9,11 @@ prints for that client (`fs CALL PATH [ARGS] -> RES | SNAP`, `accept`, `authset`
 `msgs`, teardown calls, `late`, `residue`).  Argument `prerepair` selects the model of the tree before
 repair D27b (5cb555e: qb_ipcs_us_connect chowns the directory).  `--classify`: per client only
 `cli I classes: <names of the known-finding class predicates the input falls into | ->`.  With `ids=eff` the child only changes its effective ids; the kernel then fills
-SCM_CREDENTIALS with the REAL ids, which are the harness's own (root): ugp = 0:0. -/
+SCM_CREDENTIALS with the REAL ids, which are the harness's own (root): ugp = 0:0.
+`peer=raw hs=… frag=…` (a peer that is not libqb's client) do not change what the server does to the
+file system: ignored here.  `plant=K:NAME:f666|f644|link`: a process with the client's ids plants an
+object right after call K (`Model/AdmissionPlant.lean`): line `plant NAME KIND -> RES | SNAP` after the
+K-th `fs` line, `planted same|gone|changed|none` and the (never modified) victim file before `residue`. -/
 namespace QbVerif.Driver.Admission
 open QbVerif.Admission QbVerif.Driver
 
@@ -59,8 +64,8 @@ def insertSorted (x : String × String) : List (String × String) → List (Stri
   | y :: ys => if x.1 < y.1 then x :: y :: ys else y :: insertSorted x ys
 
 def entStr (name : String) (e : Ent) : String :=
-  let t := match e.kind with | .dir => "d" | .file => "f"
-  s!"{name}={t}{oct4 e.mode}:{e.uid}:{e.gid}"
+  let t := match e.kind with | .dir => "d" | .file => if e.mode ≥ S_IFLNK then "l" else "f"
+  s!"{name}={t}{oct4 (e.mode &&& 0o7777)}:{e.uid}:{e.gid}"
 
 def snap (l : Ledger) : String :=
   match l.get .dir with
@@ -107,6 +112,31 @@ def parseFail (s : String) : Nat × Nat :=
   | [k, e] => (k.toNat?.getD 0, errNum e)
   | _ => (0, 28)
 
+def parsePath (s : String) : Option Path :=
+  [Path.hdr .request, .data .request, .hdr .response, .data .response, .hdr .event, .data .event, .control].find?
+    (fun p => pathName p == s)
+
+/-- `K:NAME:KIND` -/
+def parsePlant (s : String) (uid gid : Nat) : Option (Plant × String) :=
+  match s.splitOn ":" with
+  | [k, name, kind] =>
+    match k.toNat?, parsePath name with
+    | some k, some p =>
+      let mode := if kind == "f666" then 0o666 else if kind == "f644" then 0o644 else S_IFLNK ||| 0o777
+      if k = 0 then none else some ({ after := k, path := p, mode := mode, uid := uid, gid := gid }, kind)
+    | _, _ => none
+  | _ => none
+
+/-- the lines of `items`, with `plantLine` right after the call that brings the call counter to `k` -/
+def render (items : List Item) (n0 k : Nat) (plantLine : Option String) : List String × Nat :=
+  items.foldl (fun (acc : List String × Nat) it =>
+    let n := match it with | .call _ _ _ => acc.2 + 1 | _ => acc.2
+    let ls := match itemStr it with | some l => [l] | none => []
+    let pl := match it, plantLine with
+      | .call _ _ _, some l => if n = k then [l] else []
+      | _, _ => []
+    (acc.1 ++ ls ++ pl, n)) ([], n0)
+
 def cliBlock (d : D) (ws : List String) : List String :=
   let idx := ws.getD 1 "?"
   let uid := ((kv ws "uid").bind (·.toNat?)).getD 0
@@ -120,7 +150,22 @@ def cliBlock (d : D) (ws : List String) : List String :=
   let i : Input := { transport := d.transport, umask := d.umask, uid := ku, gid := kg, rc := rc,
                      auth := auth, failAt := fk, failErr := fe, usDirChown := d.dirfix }
   if d.classify then [s!"cli {idx} classes: {if i.classes.isEmpty then "-" else " ".intercalate i.classes}"] else
-  let s := run i
+  let plant := (kv ws "plant").bind (parsePlant · uid gid)
+  let sp := runP i (plant.map (·.1))
+  let s := sp.s
+  let plantLine := match plant, sp.plant with
+    | some (pl, kind), some (e, l) =>
+      some s!"plant {pathName pl.path} {kind} -> {match e with | none => "ok" | some e => errName e} | {snap l}"
+    | _, _ => none
+  let plantEnd : List String := match plant with
+    | none => []
+    | some (pl, _) =>
+      let st := match sp.plant with
+        | some (none, _) =>
+          if s.led.get pl.path == some pl.ent then "same" else if s.led.has pl.path then "changed" else "gone"
+        | _ => "none"
+      [s!"planted {st}", "victim 0600:0:0:14 -> 0600:0:0:14"]
+  let pk := (plant.map (·.1.after)).getD 0
   let items := s.log.reverse
   let setup := items.takeWhile (fun x => !isTeardown x)
   let down := items.dropWhile (fun x => !isTeardown x)
@@ -128,11 +173,13 @@ def cliBlock (d : D) (ws : List String) : List String :=
   let cres : Int := (s.clientRes).getD 0
   let snapLed : Ledger := if est then (ledAtEstablished s.log).getD [] else s.led
   let m := if est then msgs else 0
+  let (setupL, n1) := render setup 0 pk plantLine
+  let (downL, _) := render down n1 pk plantLine
   [s!"cli {idx}", s!"ids real={ku}:{kg} eff={uid}:{gid}"]
-    ++ setup.filterMap itemStr
+    ++ setupL
     ++ [s!"connect {cres}", s!"snap {snap snapLed}", s!"msgs sent={m} cbs={m}"]
-    ++ down.filterMap itemStr
-    ++ [s!"late cbs={m}", s!"residue {snap s.led}"]
+    ++ downL
+    ++ [s!"late cbs={m}"] ++ plantEnd ++ [s!"residue {snap s.led}"]
 
 def step (d : D) (ws : List String) : D × List String :=
   match ws with
